@@ -2,13 +2,14 @@
 """Apply a seeded change to /repo, run the quick checks of the given properties, undo it.
 usage: mutest.py <patch.diff> <pid> [<pid> ...] [--tier quick]"""
 import subprocess, sys, os
+REPO = os.environ.get("VERIF_REPO", "/repo")
 def main():
     patch = os.path.abspath(sys.argv[1]); pids = [a for a in sys.argv[2:] if not a.startswith("--")]
     tier = "thorough" if "--thorough" in sys.argv else "quick"
-    st = subprocess.run(["git", "-C", "/repo", "status", "--porcelain", "--untracked-files=no"], capture_output=True, text=True).stdout
+    st = subprocess.run(["git", "-C", REPO, "status", "--porcelain", "--untracked-files=no"], capture_output=True, text=True).stdout
     if st.strip():
         print("refusing: /repo not clean"); sys.exit(3)
-    r = subprocess.run(["git", "-C", "/repo", "apply", patch])
+    r = subprocess.run(["git", "-C", REPO, "apply", patch])
     if r.returncode != 0:
         print("patch does not apply"); sys.exit(3)
     res = {}
@@ -22,7 +23,7 @@ def main():
             if p.returncode == 2:
                 print(p.stdout[-1500:])
     finally:
-        subprocess.run(["git", "-C", "/repo", "checkout", "--", "."])
+        subprocess.run(["git", "-C", REPO, "checkout", "--", "."])
     print("RESULT", os.path.basename(os.path.dirname(patch)), res)
 if __name__ == "__main__":
     main()
